@@ -95,8 +95,8 @@ def setup():
     from polyply.src.build_system import BuildSystem
 
     def mk_add(orig):
-        def add_positions(self, point, mol_idx, node_key, start=True):
-            out = orig(self, point, mol_idx, node_key, start=start)
+        def add_positions(self, point, mol_idx, node_key, *a, **k):
+            out = orig(self, point, mol_idx, node_key, *a, **k)
             st = STATE.get("cur")
             if st is not None and st["engine"] in (None, self):
                 if not st["in_update"] and st["supplied"].get(mol_idx):
@@ -147,7 +147,7 @@ def setup():
         return _rewind
 
     def mk_overlap(orig):
-        def _is_overlap(self, point, node, nrexcl=1):
+        def _is_overlap(self, point, node, *a, **k):          # defaults are the program's, not the wrapper's
             st = STATE.get("cur")
             if st is not None and st["start_fail_left"] > 0 and not st["in_update"]:
                 # only the start placement calls _is_overlap outside update_positions
@@ -155,7 +155,7 @@ def setup():
                 st["start_fail_left"] -= 1
                 st["start_fails"] += 1
                 return True
-            return orig(self, point, node, nrexcl)
+            return orig(self, point, node, *a, **k)
         return _is_overlap
 
     def mk_run(orig):
